@@ -334,6 +334,13 @@ class _ResourceOperations:
     def write_file(self, resource, contents: Union[str, FileContent]):
         data: FileContent
         if not isinstance(contents, bytes):
+            if resource.newlines is None and resource.exists():
+                # The newline convention is detected by `File.read()`.  A
+                # change rebuilt from the saved history never read the file.
+                try:
+                    resource.read()
+                except exceptions.ModuleDecodeError:
+                    pass
             data = rope.base.fscommands.unicode_to_file_data(
                 contents,
                 newlines=resource.newlines,
